@@ -152,6 +152,7 @@ func runWSPool(x *X) {
 		x.Violate("C20", "C20/pool-blocked{"+e.Kind+"}", "pool operations no longer return: %s", e.Error())
 		x.Violate("C19", "C19/stop-blocked{pool-"+e.Kind+"}", "the pool's Shutdown (called by LoadBalancer.Stop) or the operations around it no longer return: %s", e.Error())
 		x.Violate("C12", "C12/"+e.Kind+"{wspool}", "%s", e.Error())
+		x.Blocked(e, "wspool")
 	}
 	var pool *loadbalancer.WebSocketPool
 	x.Do("setup", func() { pool = loadbalancer.NewWebSocketPool(maxIdle, 100, idleTimeout) }, onErr)
